@@ -2996,10 +2996,20 @@ void Analyser::AnalyserImpl::analyseModel(const ModelPtr &model)
     //       having been marked as external).
 
     AnalyserInternalVariablePtrs overconstrainedVariables;
+    bool requalified;
 
-    for (const auto &internalEquation : mInternalEquations) {
-        switch (internalEquation->mType) {
-        case AnalyserInternalEquation::Type::VARIABLE_BASED_CONSTANT: {
+    do {
+        // Note: a requalified variable may itself be used to compute another
+        //       variable-based constant (listed before or after it), hence we
+        //       keep going until nothing gets requalified anymore.
+
+        requalified = false;
+
+        for (const auto &internalEquation : mInternalEquations) {
+            if (internalEquation->mType != AnalyserInternalEquation::Type::VARIABLE_BASED_CONSTANT) {
+                continue;
+            }
+
             auto unknownVariable = internalEquation->mUnknownVariables.front();
 
             for (const auto &variable : internalEquation->mAllVariables) {
@@ -3015,11 +3025,16 @@ void Analyser::AnalyserImpl::analyseModel(const ModelPtr &model)
 
                     unknownVariable->mType = AnalyserInternalVariable::Type::ALGEBRAIC;
                     internalEquation->mType = AnalyserInternalEquation::Type::ALGEBRAIC;
+                    requalified = true;
 
                     break;
                 }
             }
-        } break;
+        }
+    } while (requalified);
+
+    for (const auto &internalEquation : mInternalEquations) {
+        switch (internalEquation->mType) {
         case AnalyserInternalEquation::Type::NLA:
             if (internalEquation->mNlaSiblings.size() + 1 > internalEquation->mUnknownVariables.size()) {
                 // There are more NLA equations than unknown variables, so all
